@@ -464,15 +464,24 @@ SVD4 = ['C03.svd.shape_ranks', 'C03.svd.error_bound', 'C03.svd.rank_minimal']
 
 
 def _svd_thresholds(n, seed, kind, mag, via):
-    c, _ = run_svd(n, seed, kind, mag, ['rel', 0.5], 1e12, via)
-    if c is None:
+    """All (k, q) with tail_k(q) >= 1e-6 ||A|| - from the reference array alone (the library is not called while the
+    case list is generated)."""
+    if via == 'svd_matrix':
+        q_ = len(n)
+        M = array([2 ** q_, 2 ** q_], seed, kind if not kind.startswith('lowrank') else 'gauss', mag)
+        A = _interleave(M, q_) if not kind.startswith('lowrank') else array(n, seed, kind, mag)
+    else:
+        A = array(n, seed, kind, mag)
+    if A is None:
         return []
+    nrm = float(np.linalg.norm(A))
     out = []
-    for k, s in enumerate(c.svs):
-        t = tails(s)
-        for q in range(1, len(s)):
-            if t[q] >= 1e-6 * c.nrm:
-                out.append((k, q))
+    for k in range(1, len(n)):
+        sv = np.linalg.svd(A.reshape(int(np.prod(n[:k])), -1), compute_uv=False)
+        t = tails(sv)
+        for q in range(1, len(sv)):
+            if t[q] >= 1e-6 * nrm:
+                out.append((k - 1, q))
     return out
 
 
@@ -519,10 +528,10 @@ def cases(tier, seed):
     # e >= ||A|| (everything may go: the floor max(1, .) of the rank), exactly-zero arrays, memory layouts of the input
     for ni, n in enumerate(shapes):
         for ki, kind in enumerate(kinds):
-            for mag in (MAGS if big else MAGS[(ni + ki) % 3::3]):
+            for mag in (MAGS if big else MAGS[(ni + ki) % 5::5]):
                 base = dict(n=n, seed=100 + ni, kind=kind, mag=mag, via='svd')
-                for e in (['rel', 1.0 + 1e-9], ['rel', 1.5], ['abs', 1e30]):
-                    for cap in (1e12, 2):
+                for ei, e in enumerate((['rel', 1.0 + 1e-9], ['rel', 1.5], ['abs', 1e30])):
+                    for cap in ((1e12, 2) if big else ((1e12, 2)[(ni + ki + ei) % 2],)):
                         for cid in SVD4:
                             yield cid, dict(base, e=e, cap=cap)
                 for li, layout in enumerate(('F', 'V', 'R')):
@@ -540,7 +549,7 @@ def cases(tier, seed):
         wide += [[3, 2048], [2] * 15, [4] * 6, [70, 3, 70]]
     for ni, n in enumerate(wide):
         for ki, kind in enumerate(kinds):
-            for mag in (MAGS[::2] if big else MAGS[(ni + ki) % 4::4]):
+            for mag in (MAGS[::2] if big else MAGS[(ni + ki) % 6::6]):
                 base = dict(n=n, seed=200 + ni, kind=kind, mag=mag, via='svd')
                 for e in (['rel', 0.3], ['rel', 1e-3], ['rel', 1.5], ['abs', 1e-10]):
                     for cid in SVD4:
@@ -634,8 +643,8 @@ def cases(tier, seed):
                 es = [['rel', 1.0 + 1e-9], ['rel', 2.0], ['abs', 1e30]]
                 if max(m, n) > 10:
                     es += [['rel', 0.3], ['rel', 1e-6]] + [['thr', q, sg] for q in _mat_thresholds(m, n, j, kind, scale, MS_FLOOR)[:3] for sg in (1, -1)]
-                for e in es:
-                    for cap in (1e12, 2):
+                for ei, e in enumerate(es):
+                    for cap in ((1e12, 2) if big else ((1e12, 2)[(j + ei) % 2],)):
                         for cid in MSV:
                             yield cid, dict(m=m, n=n, seed=j, kind=kind, scale=scale, e=e, cap=cap)
                         for gi, give_to in enumerate(('l', 'r', 'm')):
